@@ -67,6 +67,12 @@ func c9flagScns() []c9sx {
 			c9x(c9none, conc.OpExt{Force: true, Recreate: true, ViaUpgrade: true, Description: "forced"})},
 		{"deployed:upgrade+opts|upgrade+opts", 1, []eng.Op{c9op("upgrade", 10, eng.Flags{Cleanup: true}, "a"), c9op("upgrade", 11, eng.Flags{TakeOwnership: true}, "b")},
 			c9x(conc.OpExt{ReuseValues: true, SkipSchema: true, SubNotes: true, Label: "team"}, conc.OpExt{ResetThenReuse: true, NoValidate: true, EnableDNS: true, ViaUpgrade: true})},
+		// charts with a crds/ directory (and --create-namespace): the CRD pre-install step and the namespace creation come
+		// AFTER the name check; an install refused there has sent nothing (seeded C09-10 moved the check behind the CRD step)
+		{"empty:install+crds|install+crds", 0, []eng.Op{c9op("install", 10, eng.Flags{}, "a"), c9op("install", 11, eng.Flags{}, "b")},
+			c9x(conc.OpExt{CRDs: true}, conc.OpExt{CRDs: true, CreateNamespace: true})},
+		{"deployed:upgrade+crds|install+crds", 1, []eng.Op{c9op("upgrade", 10, eng.Flags{}, "a"), c9op("install", 11, eng.Flags{}, "a", "b")},
+			c9x(conc.OpExt{CRDs: true}, conc.OpExt{CRDs: true, CreateNamespace: true, Force: true})},
 		{"deployed:upgrade|upgrade-dry+force", 1, []eng.Op{c9op("upgrade", 10, eng.Flags{}, "a"), c9op("upgrade", 11, eng.Flags{DryRun: true}, "a", "b")}, c9x(c9none, c9force)},
 	}
 }
@@ -124,7 +130,15 @@ func c9mixCorpus(b string) []any {
 	out = append(out, fl[1].mk(b, []int{1, 1, 0, 0, 0, 1, 1, 1}))
 	out = append(out, fl[2].mk(b, []int{0, 0, 1, 1, 0, 0}))
 	out = append(out, fl[4].mk(b, []int{0, 0, 0, 1, 1, 1, 0, 0, 0}))
-	out = append(out, fl[6].mk(b, []int{0, 0, 1, 1, 1, 0, 0}))
+	out = append(out, fl[8].mk(b, []int{0, 0, 1, 1, 1, 0, 0}))
+	// charts with crds/: sequential — an install of an EXISTING name (one operation) sends nothing, not even its CRDs; ...
+	out = append(out, conc.Case{Backend: b, Pre: c9preOf(1), Note: "crds: install of a name in use sends nothing",
+		Ops: []eng.Op{c9op("install", 10, eng.Flags{}, "a", "b")}, Ext: c9x(conc.OpExt{CRDs: true, CreateNamespace: true})})
+	// ... concurrent — the second install's name check follows the first one's create; it starts while an upgrade is in
+	// progress; and the read/create window (both pass the name check and pre-install the CRDs: observation)
+	out = append(out, fl[6].mk(b, []int{0, 0, 1, 1, 1, 0, 0, 0}))
+	out = append(out, fl[7].mk(b, []int{0, 0, 1, 1, 1, 0, 0, 0}))
+	out = append(out, fl[6].mk(b, []int{0, 1, 0, 1, 0, 1, 0, 1}))
 	// mixes (observations, outside the property text): an explicit rollback starts while the upgrade's
 	// revision is pending and never looks at it: both end deployed (C09_mix_rollback_refuted) ...
 	mx := c9mixScns()
@@ -183,10 +197,14 @@ func c9flagFamily() []any {
 		{"reset-then-reuse", eng.Flags{}, conc.OpExt{ResetThenReuse: true}},
 		{"cleanup", eng.Flags{Cleanup: true}, conc.OpExt{}},
 		{"max-history", eng.Flags{MaxHistory: 5}, conc.OpExt{}},
+		{"crds", eng.Flags{}, conc.OpExt{CRDs: true}},
 	}, common...)
 	in := append([]variant{
 		{"replace", eng.Flags{Replace: true}, conc.OpExt{}},
-		{"skip-crds", eng.Flags{}, conc.OpExt{SkipCRDs: true}},
+		{"skip-crds", eng.Flags{}, conc.OpExt{SkipCRDs: true, CRDs: true}},
+		{"crds", eng.Flags{}, conc.OpExt{CRDs: true}},
+		{"create-namespace", eng.Flags{}, conc.OpExt{CreateNamespace: true}},
+		{"crds+create-namespace+force", eng.Flags{}, conc.OpExt{CRDs: true, CreateNamespace: true, Force: true}},
 	}, common...)
 	var out []any
 	for i, v := range up {
@@ -271,6 +289,12 @@ func c9genMix(r *rand.Rand, c *conc.Case, npre int) (notes []string) {
 		}
 		if r.Intn(8) == 0 {
 			f.TakeOwnership = true
+		}
+		if r.Intn(5) == 0 {
+			x.CRDs = true
+		}
+		if c.Ops[i].Kind == "install" && r.Intn(8) == 0 {
+			x.CreateNamespace = true
 		}
 		switch r.Intn(24) {
 		case 0:
